@@ -122,12 +122,12 @@ func (c *c04Case) wit(extra map[string]any) map[string]any {
 var c04QuirkMarks = map[string][]string{
 	"label-sentinel-first-in-stack": {"Labeled"},
 	"label-sentinel-inside-stack":   {"Labeled"},
-	"evpn-ipmsi":               {"IPMSI", "EVPNNLRI"},
-	"flowspec-long":            {"FlowSpec", "flowspec"},
-	"mcast-flags-none-or-both": {"MulticastFlags", "PathAttributeExtendedCommunities"},
-	"encap-empty-tlv":          {"PathAttributeTunnelEncap", "attr23"},
-	"ls-sr-ranges":             {"LsTLVSr"},
-	"open-param-253":           {":open", "type1"},
+	"evpn-ipmsi":                    {"IPMSI", "EVPNNLRI"},
+	"flowspec-long":                 {"FlowSpec", "flowspec"},
+	"mcast-flags-none-or-both":      {"MulticastFlags", "PathAttributeExtendedCommunities"},
+	"encap-empty-tlv":               {"PathAttributeTunnelEncap", "attr23"},
+	"ls-sr-ranges":                  {"LsTLVSr"},
+	"open-param-253":                {":open", "type1"},
 }
 
 func (c *c04Case) viol(key, what string, extra map[string]any) {
